@@ -80,6 +80,13 @@ pub fn gen(seed: u64, n: usize) -> Vec<Value> {
                 (0..len).map(|_| pool[rng.random_range(0..pool.len())]).collect()
             };
             let kind = ["char", "byte", "byte", "full"][rng.random_range(0..4)];
+            // one text in a hundred changes the byte width of its characters at every position, 150-220 times
+            if rng.random_bool(0.01) {
+                let m = rng.random_range(150..=220);
+                let s: String = (0..m).map(|k| if k % 2 == 0 { "a" } else { ["ä", "字", "😀"][k % 3] }).collect();
+                let (max, ctx) = [(50usize, 5usize), (64, 8), (30, 0)][rng.random_range(0..3)];
+                return json!({"s": s, "kind": kind, "g": rng.random_bool(0.5), "max": max, "ctx": ctx});
+            }
             if rng.random_bool(1.0 / 30.0) {
                 let s: String = (0..rng.random_range(1..=6)).map(|_| with_giant[rng.random_range(0..with_giant.len())]).collect();
                 let (max, ctx) = [(100usize, 10usize), (300, 10), (600, 100), (10, 2)][rng.random_range(0..4)];
